@@ -380,8 +380,11 @@ def c01_case(tid, codes, appids, order, rng):
             run.apply({"a": "Deliver", "k": conn.id})
         return run, False, False
     drained = run.drain()
+    # derive_key is a function of (purpose, length): the two sides ask in different orders, and each asks twice, so that
+    # nothing a wormhole remembers from an earlier call (another length of the same purpose, another purpose) may leak into a later one
     for c in ("A", "B"):
-        for purpose, n in C01_PURPOSES:
+        plist = list(C01_PURPOSES) if c == "A" else list(reversed(C01_PURPOSES))
+        for purpose, n in plist + list(reversed(plist)):
             run.apply({"a": "AppDerive", "c": c, "purpose": purpose, "n": n})
     match = unicodedata.normalize("NFC", a_code) == unicodedata.normalize("NFC", b_code) and appids["A"] == appids["B"]
     goal = drained and match
